@@ -193,6 +193,10 @@ func (e *Engine) installStubs() {
 		return t
 	}
 	S["verif:verifF64Bits"] = func(e *Engine, st *State, c *callInfo, a []Value) Value { return a[0] }
+	S["verif:verifEnableModel"] = func(e *Engine, st *State, c *callInfo, a []Value) Value {
+		e.enabledModels[mustConcreteStr(a[0], "verifEnableModel")] = true
+		return nil
+	}
 	S["verif:verifSymbolic"] = func(e *Engine, st *State, c *callInfo, a []Value) Value { return True() }
 	S["verif:verifNote"] = func(e *Engine, st *State, c *callInfo, a []Value) Value {
 		e.noteAssumption(mustConcreteStr(a[0], "verifNote"))
